@@ -195,3 +195,31 @@ func H_C17_reverse() {
 	verifAssert(hSameSlots(before, hSnapList(l, false)), "Reverse twice restores the list")
 	verifReach("end")
 }
+
+// Reverse on longer lists (one path per length: the elements are symbolic ints that are never inspected).
+// Lengths above 12 matter because a reversal written with the sort package leaves the insertion-sort regime there.
+func H_C17_reverse_long() {
+	maxN := 24
+	if verifTier() > 0 {
+		maxN = 70
+	}
+	verifBound("REVERSE_LISTN", maxN)
+	n := nondetIntRange(6, maxN)
+	l := hListWithSpare(n, nondetIntRange(0, 1))
+	for i := 0; i < n; i++ {
+		l.Replace(i, nondetInt())
+	}
+	before := hSnapList(l, false)
+	ret := l.Reverse()
+	verifAssert(ret == List(l), "Reverse returns the receiver")
+	after := hSnapList(l, false)
+	verifAssert(len(after.elem) == n, "Reverse keeps the length")
+	ok := true
+	for i := 0; i < n && i < len(after.elem); i++ {
+		ok = verifAnd(ok, hSameShallow(before.elem[i], after.elem[n-1-i]))
+	}
+	verifAssert(ok, "Reverse moves element i to n-1-i")
+	l.Reverse()
+	verifAssert(hSameSlots(before, hSnapList(l, false)), "Reverse twice restores the list")
+	verifReach("end")
+}
